@@ -273,11 +273,11 @@ def run_plan_rm(ctx, gs, drv, plan):
     held = [gen._rng]
     resets = [1]
 
-    def observe(out=None, info=None):
+    def observe(out=None, info=None, mid=False):
         if gen._rng is not held[-1]:
             held.append(gen._rng)
             resets[0] += 1
-        obs.append(dict(resets=resets[0], seed=gen.seed, mode_no=gen.mode_no, model=enc_model(gen.model, tbl.tags, tbl.sampling),
+        obs.append(dict(mid=mid, resets=resets[0], seed=gen.seed, mode_no=gen.mode_no, model=enc_model(gen.model, tbl.tags, tbl.sampling),
                         master=master_of(gen).get_state(), z1=gen._z_1, z2=gen._z_2, cs=gen._cov_sample,
                         gmodel=copy.deepcopy(gen.model), out=out, info=info))
 
@@ -304,7 +304,7 @@ def run_plan_rm(ctx, gs, drv, plan):
             iso = srf.model.isometrize(pos)
             fld = srf(pos, seed=o, store=store)
             gops.append([0, midx, kd, v, tok])
-            observe()
+            observe(mid=True)      # SRF.__call__ is one step of the implementation: the stream position is seen after it
             shape = n
             gops.append([4, shape, 1, 0, 0])
             observe(out=np.array(fld), info=dict(pos=iso, raw_pos=pos, srf=True))
@@ -361,7 +361,7 @@ def run_plan_rm(ctx, gs, drv, plan):
             if m_resets != last_resets and ekind == 1:
                 stream.base = (ob["master"], m_pos)      # seed None: OS entropy, take the state as given
             exp_state = stream.state_after(ekind, evl, m_pos)
-            if exp_state is None or not same_state(exp_state, ob["master"]):
+            if not ob["mid"] and (exp_state is None or not same_state(exp_state, ob["master"])):
                 what = "RNG stream position: master RNG is not at sub-stream %d after seeding with %s" % (m_pos, (ekind, evl))
         last_resets = m_resets
         if what is None and md_ek == 0:
@@ -471,11 +471,11 @@ def run_plan_fo(ctx, gs, drv, plan):
     held = [gen._rng]
     resets = [1]
 
-    def observe(out=None, info=None, raised=False):
+    def observe(out=None, info=None, raised=False, mid=False):
         if gen._rng is not held[-1]:
             held.append(gen._rng)
             resets[0] += 1
-        obs.append(dict(raised=raised, resets=resets[0], seed=gen.seed, mode_no=[int(x) for x in gen.mode_no],
+        obs.append(dict(mid=mid, raised=raised, resets=resets[0], seed=gen.seed, mode_no=[int(x) for x in gen.mode_no],
                         period=np.array(gen.period, dtype=float), delta=np.array(gen._delta_k, dtype=float),
                         model=enc_model(gen.model, tbl.tags), master=master_of(gen).get_state(),
                         modes=gen._modes, z1=gen._z_1, z2=gen._z_2, sf=gen._spectrum_factor, out=out, info=info))
@@ -526,7 +526,7 @@ def run_plan_fo(ctx, gs, drv, plan):
             iso = srf.model.isometrize(pos)
             fld = srf(pos, seed=o, store=store)
             gops.append([0, midx, kd, v, tok, -1, -1])
-            observe()
+            observe(mid=True)
             gops.append([4, n, 1, 0, 0, 0, 0])
             observe(out=np.array(fld), info=dict(pos=iso, srf=True))
         elif k == "gen.seed":
@@ -622,7 +622,7 @@ def run_plan_fo(ctx, gs, drv, plan):
             if m_resets != last_resets and ekind == 1:
                 stream.base = (ob["master"], m_pos)
             exp_state = stream.state_after(ekind, evl, m_pos)
-            if exp_state is None or not same_state(exp_state, ob["master"]):
+            if not ob["mid"] and (exp_state is None or not same_state(exp_state, ob["master"])):
                 what = "RNG stream position: master RNG is not at sub-stream %d after seeding with %s" % (m_pos, (ekind, evl))
         last_resets = m_resets
         fr = None
